@@ -1,4 +1,4 @@
-"""C37 - conditional git ref updates honour the expected old value (single updater)."""
+"""C37 - conditional git ref updates honour the expected old value (one operation of a second updater at a time)."""
 import io
 import posixpath
 
@@ -7,7 +7,9 @@ from symx.runner import Ob
 ID = "C37"
 TG = "breezy.git.transportgit"
 DR = "dulwich.refs"
-FUNCTIONS = [TG + ":TransportRefsContainer.set_if_equals", TG + ":TransportRefsContainer.remove_if_equals",
+IR = "breezy.git.interrepo"
+FUNCTIONS = [IR + ":InterToLocalGitRepository.fetch_refs", IR + ":InterToLocalGitRepository._get_target_either_refs",
+             TG + ":TransportRefsContainer.allkeys",TG + ":TransportRefsContainer.set_if_equals", TG + ":TransportRefsContainer.remove_if_equals",
              TG + ":TransportRefsContainer.add_if_new", TG + ":TransportRefsContainer.read_loose_ref",
              TG + ":TransportRefsContainer.get_packed_refs", TG + ":TransportRefsContainer._remove_packed_ref",
              DR + ":RefsContainer.follow", DR + ":RefsContainer.read_ref", DR + ":read_packed_refs",
@@ -17,8 +19,9 @@ STUBS = ["transport: in-memory dictionary of files (get/get_bytes/put_bytes/dele
          "replaced by equivalent pure-python versions inside the lifted dulwich.refs module"]
 ASSUMPTIONS = ["ref values are 40 lowercase hex digits (symbolic); ref names come from a small concrete set",
                "an absent ref is expected as ZERO_SHA (dulwich convention for compare-and-swap)"]
-OUTSIDE = ["interleavings of two updaters (concurrency over I/O)", "InterToLocalGitRepository.fetch_refs",
-           "ref names outside the enumerated set"]
+OUTSIDE = ["interleavings finer than one whole operation of the second updater (there is no lock around read-compare-write; "
+           "two updaters inside that window are concurrency over I/O)", "ref names outside the enumerated set",
+           "pushes to remote git repositories (send_pack)"]
 
 HEX = b"0123456789abcdef"
 ZERO = b"0" * 40
@@ -98,6 +101,16 @@ class MemTransport:
         return t
 
     def create_prefix(self):
+        pass
+
+    def iter_files_recursive(self):
+        pre = self.prefix + "/" if self.prefix else ""
+        found = [p[len(pre):] for p in sorted(self.files) if p.startswith(pre)]
+        if self.prefix and not found:
+            raise self._missing(self.prefix)
+        return iter(found)
+
+    def mkdir(self, path, mode=None):
         pass
 
     def local_abspath(self, path):
@@ -239,6 +252,77 @@ def ob_add_if_new(cx):
     cx.cover(how)
 
 
+def ob_fetch_refs(cx):
+    """The real InterToLocalGitRepository.fetch_refs (push into a local git repository) writes each ref conditionally on the
+    value it saw in its snapshot: a second updater that changes, creates or deletes the ref after the snapshot is never
+    overwritten."""
+    T = cx.mod(TG)
+    I = cx.mod(IR)
+    t, how, cur = _scenario(cx)
+    if how == "symref":
+        cx.assume(False)
+    refs = T.TransportRefsContainer(t)
+    ours = cx.bytes("new", 40, HEX)
+    theirs = cx.bytes("theirs", 40, HEX)
+    for v in (ours, theirs) + (() if cur is None else (cur,)):
+        cx.assume(v != ZERO)          # the all-zero id means "no such ref" in the compare-and-swap convention; no object has it
+    interference = cx.pick("interference", ["none", "set", "delete"])
+    if interference == "delete" and cur is None:
+        cx.assume(False)
+
+    class Store:
+        @staticmethod
+        def lock_read():
+            import contextlib
+            return contextlib.nullcontext()
+
+        @staticmethod
+        def lookup_git_sha(sha):
+            raise KeyError(sha)
+
+    class Git:
+        pass
+    Git.refs = refs
+
+    class Target:
+        _git = Git
+    inter = object.__new__(I.InterToLocalGitRepository)
+    inter.source_store, inter.source, inter.target, inter.target_refs, inter.mapping = Store, None, Target, refs, None
+    inter._warn_slow = lambda: None
+    inter.fetch_revs = lambda revs, lossy=False: {}
+    seen = {}
+
+    def update_refs(old_refs):
+        seen["snapshot"] = old_refs.get(NAME)
+        other = T.TransportRefsContainer(t)          # the second updater, after our snapshot
+        if interference == "set":
+            other[NAME] = theirs
+        elif interference == "delete":
+            del other[NAME]
+        return {NAME: (ours, b"some-revid")}
+    inter.fetch_refs(update_refs, lossy=False)
+    snap = seen["snapshot"]
+    cx.require((snap is None) == (cur is None) and (cur is None or snap[0] == cur), "snapshot does not show the ref's value")
+    final = T.TransportRefsContainer(t)
+    try:
+        got = final[NAME]
+    except KeyError:
+        got = None
+    if interference == "none" or (interference == "set" and cur is not None and cx.truth(theirs == cur)):
+        cx.require(got is not None and got == ours, "uncontended push did not store the new value")
+        cx.cover("pushed")
+    elif interference == "set":
+        cx.require(got is not None and got == theirs, "push overwrote a value another updater stored after the snapshot")
+        cx.cover("kept_theirs")
+        if cur is None:
+            cx.cover("created_meanwhile")
+    else:
+        cx.require(got is None, "push re-created a ref another updater deleted after the snapshot")
+        cx.cover("kept_deleted")
+    cx.observe("got", got)
+    cx.cover(how)
+
+
 STATES = ["absent", "loose", "packed", "packed_peeled", "loose_and_packed", "symref"]
 
 
@@ -253,4 +337,8 @@ def obligations(tier):
            ["removed", "refused"] + [s for s in STATES if s != "symref"], setup=setup, bounds=b,
            known=["C37-cas-ignores-expected-value"]),
         Ob("add_if_new", ob_add_if_new, lift, {}, to, 1, ["added", "kept"] + STATES, setup=setup, bounds=b),
+        Ob("fetch_refs", ob_fetch_refs, lift + [IR], {}, to, 1,
+           ["pushed", "kept_theirs", "kept_deleted", "created_meanwhile"] + [s for s in STATES if s != "symref"], setup=setup,
+           bounds=b + "; one interfering updater (set / delete / create with a symbolic value) between fetch_refs' snapshot and "
+                      "its write"),
     ]
